@@ -33,7 +33,7 @@ Display(a) ==
   IF a.form = "wit"
   THEN [kind |-> "seg", hrp |-> IF a.blinded THEN BlechHrp(a.net) ELSE BechHrp(a.net), case |-> "lower", ver |-> a.ver,
         keylen |-> IF a.blinded THEN 33 ELSE 0, plen |-> a.plen, code |-> IF a.blinded THEN "blech" ELSE "bech",
-        variant |-> IF a.ver = 0 THEN "plain" ELSE "m"]
+        variant |-> IF a.ver = 0 THEN "plain" ELSE "m", pad |-> 0]
   ELSE [kind |-> "b58", outer |-> IF a.blinded THEN BlindedByte(a.net) ELSE (IF a.form = "p2pkh" THEN P2pkhByte(a.net) ELSE P2shByte(a.net)),
         inner |-> IF a.blinded THEN (IF a.form = "p2pkh" THEN P2pkhByte(a.net) ELSE P2shByte(a.net)) ELSE 0,
         keylen |-> IF a.blinded THEN 33 ELSE 0, hashlen |-> 20, cksum |-> "ok"]
@@ -44,7 +44,11 @@ Accept(a) == [ok |-> TRUE, addr |-> a]
 \* parsing under one network's parameters (Address::parse_with_params).  Parsing sees bytes, not the
 \* structure a string was built with: only total lengths and the bytes at fixed offsets matter.
 SegTotal(s) == s.keylen + s.plen
-SegWellFormed(s, code) == s.case # "mixed" /\ s.code = code /\ s.ver <= 16 /\ s.variant = (IF s.ver = 0 THEN "plain" ELSE "m")
+\* padding: the data bytes are regrouped into 5-bit symbols; the last symbol carries PadBits(total) zero bits.
+\* s.pad = 0: clean; s.pad = k > 0: the k-th padding bit (from the least significant) is set, where there is one
+PadBits(n) == (5 - ((8 * n) % 5)) % 5
+PadDirty(s) == s.pad > 0 /\ s.pad <= PadBits(SegTotal(s))
+SegWellFormed(s, code) == s.case # "mixed" /\ s.code = code /\ s.ver <= 16 /\ s.variant = (IF s.ver = 0 THEN "plain" ELSE "m") /\ ~PadDirty(s)
 ProgOk(ver, plen) == plen >= 2 /\ plen <= 40 /\ (ver = 0 => plen \in {20, 32})
 ParseSeg(s, n) ==
   IF s.hrp = BechHrp(n) THEN
@@ -79,7 +83,11 @@ Parse(s) == LET hits == { n \in Nets : ParseWith(s, n).ok } IN
 NearHrps == {"exx", "e", "ertq", "er", "texx", "te", "lqq", "l", "elq", "tlqq", "tl", "exq", "lqel"}
 SegStrings ==
   [kind : {"seg"}, hrp : AllHrps \cup {"bc", "xx"} \cup NearHrps, case : {"lower", "upper", "mixed"}, ver : {0, 1, 2, 16, 17},
-   keylen : {0, 33}, plen : {0, 1, 2, 19, 20, 21, 31, 32, 33, 40, 41}, code : {"bech", "blech"}, variant : {"plain", "m", "bad"}]
+   keylen : {0, 33}, plen : {0, 1, 2, 19, 20, 21, 31, 32, 33, 40, 41}, code : {"bech", "blech"}, variant : {"plain", "m", "bad"}, pad : {0}]
+  \cup \* non-zero padding bits under a correct checksum, for every number of padding bits (program lengths of every residue mod 5)
+  { x \in [kind : {"seg"}, hrp : AllHrps, case : {"lower"}, ver : {0, 1, 16}, keylen : {0, 33}, plen : {2, 3, 4, 19, 20, 21, 22, 32, 39, 40},
+           code : {"bech", "blech"}, variant : {"plain", "m"}, pad : 1..4] :
+      PadDirty(x) /\ x.variant = (IF x.ver = 0 THEN "plain" ELSE "m") /\ (x.code = "blech" <=> x.keylen = 33) }
 B58Strings ==
   [kind : {"b58"}, outer : AllBytes \cup {0, 5, 111}, inner : AllBytes \cup {0}, keylen : {0, 32, 33, 34}, hashlen : {19, 20, 21}, cksum : {"ok", "bad"}]
 
@@ -88,7 +96,7 @@ RoundTrips   == \A a \in Addresses : ValidAddr(a) => Parse(Display(a)) = Accept(
 BothCases    == \A a \in Addresses : (ValidAddr(a) /\ a.form = "wit") => Parse([Display(a) EXCEPT !.case = "upper"]) = Accept(a)
 OneNetwork   == \A s \in SegStrings \cup B58Strings : Decidable(s) => Cardinality({ n \in Nets : ParseWith(s, n).ok }) <= 1
 \* what a string looks like as text: hrp / version / total length / code / variant (resp. version bytes and total length)
-Layout(s) == IF s.kind = "seg" THEN <<s.hrp, s.ver, SegTotal(s), s.code, s.variant>> ELSE <<s.outer, B58Total(s), s.cksum>>
+Layout(s) == IF s.kind = "seg" THEN <<s.hrp, s.ver, SegTotal(s), s.code, s.variant, s.pad>> ELSE <<s.outer, B58Total(s), s.cksum>>
 Canonical    == \A s \in SegStrings \cup B58Strings : (Decidable(s) /\ Parse(s).ok) => (ValidAddr(Parse(s).addr) /\ Layout(Display(Parse(s).addr)) = Layout(s))
 FromStrAgrees == \A s \in SegStrings \cup B58Strings : \A n \in Nets : ParseWith(s, n).ok => Parse(s) = ParseWith(s, n)
 =============================================================================
